@@ -146,11 +146,7 @@ func (c *c16Chain) refFiredInfo(n uint64) (map[string]string, map[string]firedIn
 			}
 			for i := range blk.Logs {
 				lg := &blk.Logs[i]
-				match, determined := refMatch(t.def, lg)
-				if !determined {
-					panic("harness: log not well formed for a definition watching its contract: " + defDesc(t.def))
-				}
-				if match {
+				if chainVerdict(t.def, lg) {
 					fired[key] = renderRow(map[string]any{
 						"eon": t.cols["eon"], "identity": t.cols["identity"], "identity_prefix": t.cols["identity_prefix"], "sender": t.cols["sender"],
 						"block_number": int64(lg.BlockNumber), "block_hash": lg.BlockHash.Bytes(), "tx_index": int64(lg.TxIndex), "log_index": int64(lg.Index),
@@ -189,8 +185,12 @@ func (c *c16Chain) twinLabels(n uint64) []string {
 	}
 	set := map[string]bool{}
 	for _, fi := range info {
-		if lg := c.m.chain.Canonical(fi.block).Logs[fi.logIdx]; len(lg.Data)%32 != 0 {
+		lg := c.m.chain.Canonical(fi.block).Logs[fi.logIdx]
+		if len(lg.Data)%32 != 0 {
 			set["fired-by-log-whose-data-ends-inside-a-word"] = true
+		}
+		if lacksReferencedTopic(fi.def, &lg) {
+			set["predicate-on-topic-the-log-lacks:fires-the-trigger"] = true
 		}
 	}
 	for _, fis := range byID {
@@ -208,7 +208,7 @@ func (c *c16Chain) twinLabels(n uint64) []string {
 				for m2 := a.block + 1; m2 <= min(a.expiry, b.expiry, n); m2++ {
 					blk := c.m.chain.Canonical(m2)
 					for k := range blk.Logs {
-						if ok, _ := refMatch(a.def, &blk.Logs[k]); ok {
+						if chainVerdict(a.def, &blk.Logs[k]) {
 							set["same-identity-several-eons:second-matching-log-before-expiry"] = true
 						}
 					}
@@ -231,6 +231,24 @@ func (c *c16Chain) defByBytes(b []byte) *svc.EventTriggerDefinition {
 		}
 	}
 	return nil
+}
+
+// zeroTopicOf returns the highest topic position k with an integer predicate
+// that the empty value satisfies (-1 if none), and the number of leading
+// topics a log must keep for the BytesEq predicates below k.
+func zeroTopicOf(d *svc.EventTriggerDefinition) (k int, keep int) {
+	k = -1
+	for _, p := range d.LogPredicates {
+		if o := int(p.LogValueRef.Offset); o < 4 && p.ValuePredicate.Op != svc.BytesEq && refPredicate(p.ValuePredicate, nil) && o > k {
+			k = o
+		}
+	}
+	for _, p := range d.LogPredicates {
+		if o := int(p.LogValueRef.Offset); o < k && p.ValuePredicate.Op == svc.BytesEq && o+1 > keep {
+			keep = o + 1
+		}
+	}
+	return k, keep
 }
 
 // siblingDef derives from d a definition on the same contract that pins the
@@ -406,6 +424,27 @@ func genC16Chain(rt *rapid.T, exclReReg bool, rec *Recorder) *c16Chain {
 				sig := smallHash(0xee, rapid.IntRange(0, 3).Draw(rt, l+"signature"))
 				t.def.LogPredicates = append(t.def.LogPredicates, svc.LogPredicate{LogValueRef: svc.LogValueRef{Offset: 0},
 					ValuePredicate: svc.ValuePredicate{Op: svc.BytesEq, IntArgs: []*big.Int{}, ByteArgs: [][]byte{sig.Bytes()}}})
+			}
+			if rapid.IntRange(0, 9).Draw(rt, l+"zeroTopicPredicate") < 4 {
+				// an integer predicate on a topic that the empty value satisfies:
+				// it also holds for logs that do not carry that topic at all
+				k := uint64(rapid.SampledFrom([]int{0, 1, 1, 2, 2, 3}).Draw(rt, l+"zeroTopic"))
+				free := true
+				for _, p := range t.def.LogPredicates {
+					if p.LogValueRef.Offset == k && p.ValuePredicate.Op == svc.BytesEq {
+						free = false
+					}
+				}
+				if free {
+					vp := rapid.SampledFrom([]svc.ValuePredicate{
+						{Op: svc.UintEq, IntArgs: []*big.Int{big.NewInt(0)}, ByteArgs: [][]byte{}},
+						{Op: svc.UintEq, IntArgs: []*big.Int{big.NewInt(0)}, ByteArgs: [][]byte{}},
+						{Op: svc.UintLte, IntArgs: []*big.Int{big.NewInt(7)}, ByteArgs: [][]byte{}},
+						{Op: svc.UintLt, IntArgs: []*big.Int{big.NewInt(1)}, ByteArgs: [][]byte{}},
+						{Op: svc.UintGte, IntArgs: []*big.Int{big.NewInt(0)}, ByteArgs: [][]byte{}},
+					}).Draw(rt, l+"zeroTopicOp")
+					t.def.LogPredicates = append(t.def.LogPredicates, svc.LogPredicate{LogValueRef: svc.LogValueRef{Offset: k}, ValuePredicate: vp})
+				}
 			}
 			if hasDynamic(&t.def) {
 				// a dynamic reference is only total on logs laid out for it: give it its own contract
@@ -603,8 +642,8 @@ func genC16Chain(rt *rapid.T, exclReReg bool, rec *Recorder) *c16Chain {
 						}
 					}
 				}
-				a, _ := refMatch(&t.def, specAsLog(spec))
-				b, _ := refMatch(pd, specAsLog(spec))
+				a := chainVerdict(&t.def, specAsLog(spec))
+				b := chainVerdict(pd, specAsLog(spec))
 				switch {
 				case a && b:
 					cutLabels["sibling-triggers:log-matches-both"] = true
@@ -612,10 +651,20 @@ func genC16Chain(rt *rapid.T, exclReReg bool, rec *Recorder) *c16Chain {
 					cutLabels["sibling-triggers:log-matches-exactly-one"] = true
 				}
 			}
+			if k, keep := zeroTopicOf(&t.def); k >= 0 && t.valid && rapid.IntRange(0, 2).Draw(rt, ll+"fewerTopics") > 0 {
+				// an anonymous-event shape: the log carries fewer topics than the predicate's position
+				spec.Topics = spec.Topics[:rapid.IntRange(keep, k).Draw(rt, ll+"topics")]
+				cutLabels["predicate-on-topic-the-log-lacks"] = true
+				if chainVerdict(&t.def, specAsLog(spec)) {
+					cutLabels["predicate-on-topic-the-log-lacks:log-matches"] = true
+				} else {
+					cutLabels["predicate-on-topic-the-log-lacks:log-does-not-match"] = true
+				}
+			}
 			cut := strings.SplitN(logInfo, "|", 2)[0]
 			if t.valid {
 				for _, sh := range strings.Split(logInfo, "|")[1:] {
-					verdict, _ := refMatch(&t.def, specAsLog(spec))
+					verdict := chainVerdict(&t.def, specAsLog(spec))
 					cutLabels[sh] = true
 					if verdict {
 						cutLabels[sh+":matching"] = true
@@ -625,7 +674,7 @@ func genC16Chain(rt *rapid.T, exclReReg bool, rec *Recorder) *c16Chain {
 				}
 			}
 			if cut != "" && t.valid {
-				verdict, _ := refMatch(&t.def, specAsLog(spec))
+				verdict := chainVerdict(&t.def, specAsLog(spec))
 				cutLabels["chain:log-data-ends-inside-referenced-static-word"] = true
 				if verdict {
 					cutLabels["log-data-ends-inside-referenced-static-word:matching"] = true
@@ -720,7 +769,7 @@ func (c *c16Chain) relationLabels() []string {
 			for _, mb := range blocks {
 				hit := false
 				for j := range mb.Logs {
-					if ok, _ := refMatch(d, &mb.Logs[j]); ok {
+					if chainVerdict(d, &mb.Logs[j]) {
 						hit = true
 					}
 				}
@@ -831,7 +880,7 @@ func (c *c16Chain) matchPairs(tipBlk *fakechain.Block) [][2]uint64 {
 					continue
 				}
 				for j := range mb.Logs {
-					if ok, _ := refMatch(d, &mb.Logs[j]); ok {
+					if chainVerdict(d, &mb.Logs[j]) {
 						pairs = append(pairs, [2]uint64{rb.Number(), mb.Number()})
 						break
 					}
